@@ -7,20 +7,25 @@ use crate::rng::Rng;
 use crate::util::{self, Comp};
 use std::path::Path;
 
-pub fn spec_for(seed: u64, mode: Mode) -> Spec {
+pub fn spec_for(seed: u64, mode: Mode, big: bool) -> Spec {
     let mut rng = Rng::new(seed ^ 0xC09);
-    let comp = *rng.pick(&[Comp::None, Comp::Zstd(3), Comp::Lz4(2)]);
+    let comp = if big { Comp::None } else { *rng.pick(&[Comp::None, Comp::Zstd(3), Comp::Lz4(2)]) };
     let mut s = container::random_spec(&mut rng, mode, comp, 6, 0);
-    // one content large enough to go through several writes / copy_file_range
+    // one content large enough to go through several writes / copy_file_range; in the "big" scenarios the
+    // output file exceeds 4 MiB (any in-memory staging of the output has spilled by then)
     if let Some(it) = s.items.first_mut() {
-        it.data = rng.bytes(70_000);
+        it.data = rng.bytes(if big { 5 * 1024 * 1024 + 12_345 } else { 70_000 });
         it.hint = util::Hint::No;
     }
     s
 }
 
+fn is_big(s: &str) -> bool {
+    s.ends_with("-big")
+}
+
 fn mode_of(s: &str) -> Mode {
-    match s {
+    match s.trim_end_matches("-big") {
         "twofiles" => Mode::TwoFiles,
         "noconcat" => Mode::NoConcat,
         _ => Mode::OneFile,
@@ -32,7 +37,7 @@ pub fn child(args: &[String]) -> i32 {
     let mode = mode_of(&args[0]);
     let dir = Path::new(&args[1]);
     let seed: u64 = args[2].parse().unwrap();
-    let spec = spec_for(seed, mode);
+    let spec = spec_for(seed, mode, is_big(&args[0]));
     match container::build(dir, "out", &spec) {
         Ok(_) => 0,
         Err(e) => {
@@ -48,7 +53,7 @@ pub fn verify(args: &[String]) -> i32 {
     let dir = Path::new(&args[1]);
     let seed: u64 = args[2].parse().unwrap();
     let prev_fnv: Option<u64> = args.get(3).and_then(|s| s.parse().ok());
-    let spec = spec_for(seed, mode);
+    let spec = spec_for(seed, mode, is_big(&args[0]));
     let expected = container::expected_dump(&spec);
     let entry = dir.join("out.jbk");
     let mut temps = 0;
